@@ -186,20 +186,8 @@ func init() {
 					if rk == "http-get-zstd" {
 						q.hdr = map[string]string{"Accept-Encoding": "zstd"}
 					}
-					// a corrupt entry may legitimately end the transfer early: no abort-evidence from these
-					read = &op{ep: "http:GET:/cas", noRetry: true, desc: map[string]any{"path": q.path, "headers": q.hdr, "corrupted_field": hm.name},
-						run: func(ctx context.Context, fx *fixture) result {
-							res := fx.httpDo(ctx, q)
-							if res.transport { // truncated transfer of a corrupt file is an error answer, not a crash by itself
-								res.transport = false
-								res.status = "http:aborted-transfer"
-								fx.child.WaitExit(300_000_000)
-								if fx.child.Exited() {
-									res.transport = true
-								}
-							}
-							return res
-						}}
+					read = &op{ep: "http:GET:/cas", desc: map[string]any{"path": q.path, "headers": q.hdr, "corrupted_field": hm.name},
+						run: func(ctx context.Context, fx *fixture) result { return fx.httpDo(ctx, q) }}
 				case rk == "batchread" || rk == "batchread-zstd":
 					read = &op{ep: "grpc:CAS.BatchReadBlobs", desc: map[string]any{"digest": descDigest(b.digest()), "zstd": rk == "batchread-zstd", "corrupted_field": hm.name},
 						run: func(ctx context.Context, fx *fixture) result {
